@@ -67,7 +67,7 @@ func (r *runner) check(o *Obs) []Violation {
 			add(r.job.Prop, "deadlock", strings.Join(o.S.Deadlocked, " "))
 		case o.Outcome == "horizon":
 			add(r.job.Prop, "horizon", "execution exceeded the step horizon")
-		case strings.HasPrefix(o.Outcome, "panic:"):
+		case strings.HasPrefix(o.Outcome, "panic:") && !injectedPanic(o.Outcome):
 			add(r.job.Prop, "panic", firstLine(o.Outcome))
 		}
 	}
